@@ -35,7 +35,12 @@ def prof(profile, n, ops=1, **kw):
 
 PROPS = {
     'C01': dict(quick=dict(profiles=[seq('C01', 480, 40)]), thorough=dict(profiles=[seq('C01', 3200, 100)])),
-    'C02': dict(quick=dict(profiles=[seq('C02', 480, 40)]), thorough=dict(profiles=[seq('C02', 3200, 100)])),
+    'C02': dict(quick=dict(profiles=[seq('C02', 480, 40), prof('crash', 32, 10)]),
+                thorough=dict(profiles=[seq('C02', 3200, 100), prof('crash', 96, 40)]),
+                # of the crash / power-loss images only what concerns offsets: NextOffset after recovery, and the
+                # append after it (an offset assigned twice shows there); the rest of those images is C05 / C06, and so
+                # is the window of the rebasing delete (known finding D6 of C05)
+                viol_line_regex=r'^VIOL \d+ (?!.*\brebase=1\b)(?!Crash(Content|Views|RecoverAgain|Retry|Migrate|OpenFails)\b|Loss(BelowSync|NotPrefix|Views|RecoverAgain|OpenFails)\b)'),
     'C03': dict(quick=dict(profiles=[seq('C03', 192, 24)]), thorough=dict(profiles=[seq('C03', 1600, 40)])),
     'C04': dict(quick=dict(profiles=[seq('C04', 480, 30)]), thorough=dict(profiles=[seq('C04', 3200, 60)])),
     'C05': dict(quick=dict(profiles=[prof('crash', 96, 10)]), thorough=dict(profiles=[prof('crash', 320, 112)]),
